@@ -31,15 +31,22 @@ def parse_sweep(out):
         if line.startswith("Z "):
             cur = line[2:]
             res[cur] = {"segs": []}
-        elif line.startswith("C "):
-            f = line.split()
-            ab = f[4] if f[4] != '""' else ""
-            res[cur]["segs"].append((int(f[1]), int(f[2]), int(f[3]), ab))
-        elif line.startswith("E "):
+        elif line.startswith("C ") and cur is not None:
+            # an abbreviation printed by a broken library may contain anything (blanks, '='): keep the line, never raise
+            f = line.split(None, 4)
+            try:
+                ab = (f[4] if len(f) > 4 else "")
+                res[cur]["segs"].append((int(f[1]), int(f[2]), int(f[3]), ab if ab != '""' else ""))
+            except (ValueError, IndexError):
+                res[cur]["malformed"] = res[cur].get("malformed", 0) + 1
+        elif line.startswith("E ") and cur is not None:
             f = line.split()
             for kv in f[2:]:
-                k, v = kv.split("=")
-                res[cur][k] = int(v)
+                k, _, v = kv.partition("=")
+                try:
+                    res[cur][k] = int(v)
+                except ValueError:
+                    res[cur]["malformed"] = res[cur].get("malformed", 0) + 1
     return res
 
 
